@@ -12,6 +12,9 @@ pub mod c03;
 pub mod c01;
 pub mod c13;
 pub mod c11;
+pub mod c12;
+pub mod c15;
+pub mod c16;
 
 pub struct Tier {
     pub thorough: bool,
@@ -120,6 +123,9 @@ pub fn run_property(id: &str, t: &Tier, replay: Option<(String, std::collections
         "C01" => c01::run(&mut pr, t),
         "C13" => c13::run(&mut pr, t),
         "C11" => c11::run(&mut pr, t),
+        "C12" => c12::run(&mut pr, t),
+        "C15" => c15::run(&mut pr, t),
+        "C16" => c16::run(&mut pr, t),
         _ => return None,
     }
     let _ = explore;
